@@ -194,7 +194,8 @@ func (p *Packet) ReadValue(sample int) int {
 	case []int64:
 		return int(d[sample])
 	default:
-		panic("Oh no! Type of d is not known in Packet.ReadValue()")
+		// Payloads of mixed or unsupported types are kept as raw bytes: no single-sample value exists.
+		return 0
 	}
 }
 
